@@ -472,4 +472,58 @@ example : authorize exSt { tag := 0x8001, cc := 0x130, handles := [1], auths := 
   missing_session _ _ _ (by decide)
 end example_state
 
+/-! ### Histories that change authorization values (HierarchyChangeAuth, ObjectChangeAuth, NV_ChangeAuth) -/
+
+theorem find_map_setAuth (es : List Entity) (h k : Nat) (a : Bytes) :
+    (es.map (fun e => if e.handle == h then { e with auth := stripZeros a } else e)).find? (·.handle == k) =
+    (es.find? (·.handle == k)).map (fun e => if e.handle == h then { e with auth := stripZeros a } else e) := by
+  rw [List.find?_map]
+  have hp : ((fun (x : Entity) => x.handle == k) ∘ fun e => if e.handle == h then { e with auth := stripZeros a } else e) = (fun (x : Entity) => x.handle == k) := by
+    funext e; simp only [Function.comp]; split <;> rfl
+  rw [hp]
+
+/-- **the changed entity carries the new value (trailing zeros removed), every other entity is untouched** -/
+theorem setAuth_ent (st : St) (h : Nat) (a : Bytes) (k : Nat) :
+    (st.setAuth h a).ent k = (st.ent k).map (fun e => if e.handle == h then { e with auth := stripZeros a } else e) := by
+  unfold St.setAuth St.ent; exact find_map_setAuth st.ents h k a
+
+theorem setAuth_other (st : St) (h k : Nat) (a : Bytes) (e : Entity) (hk : st.ent k = some e) (hne : k ≠ h) :
+    (st.setAuth h a).ent k = some e := by
+  have hh : e.handle = k := by
+    unfold St.ent at hk; have := List.find?_some hk; simpa using this
+  rw [setAuth_ent, hk]; simp [hh, hne]
+
+theorem setAuth_changed (st : St) (h : Nat) (a : Bytes) (e : Entity) (hk : st.ent h = some e) :
+    (st.setAuth h a).ent h = some { e with auth := stripZeros a } := by
+  have hh : e.handle = h := by
+    unfold St.ent at hk; have := List.find?_some hk; simpa using this
+  rw [setAuth_ent, hk]; simp [hh]
+
+/-- sessions are not touched by a change of an authorization value -/
+theorem setAuth_sessions (st : St) (h : Nat) (a : Bytes) (sh : Nat) : (st.setAuth h a).session sh = st.session sh := rfl
+
+/-- **after the change a password authorization passes only with the new value**: whatever else is in the authorization,
+    a password that differs from the new value (modulo trailing zeros) — in particular the old value — is refused -/
+theorem old_password_refused (st : St) (h : Nat) (newAuth : Bytes) (e : Entity) (cc : Nat) (r : Role) (cph : Bytes) (a : AuthIn)
+    (hk : st.ent h = some e) (hpw : a.sh = TPM_RS_PW) (hne : stripZeros a.hmac ≠ stripZeros newAuth) :
+    ∃ e', (st.setAuth h newAuth).ent h = some e' ∧ checkOne (st.setAuth h newAuth) e' cc r cph a ≠ .pass := by
+  refine ⟨{ e with auth := stripZeros newAuth }, setAuth_changed st h newAuth e hk, ?_⟩
+  intro hp
+  exact hne (checkOne_pw _ _ cc r cph a hpw hp).1
+
+/-- **an unbound HMAC session authorizes the changed entity under the new value**: the HMAC key is sessionKey ‖ newAuth -/
+theorem hmacKey_after_setAuth (st : St) (h : Nat) (newAuth : Bytes) (e : Entity) (s : Session) (hk : st.ent h = some e)
+    (hb : s.bound = false) :
+    ∃ e', (st.setAuth h newAuth).ent h = some e' ∧ hmacKey s e' = s.key ++ stripZeros newAuth := by
+  refine ⟨{ e with auth := stripZeros newAuth }, setAuth_changed st h newAuth e hk, ?_⟩
+  exact hmacKey_unbound s _ hb
+
+/-- non-vacuity: an entity with value "k1" changed to "c7": the old password no longer passes, the new one does -/
+example :
+    let st : St := { ents := [{ handle := 0x80000001, name := [0, 11], auth := [0x6b, 0x31], isObject := true }] }
+    let st' := st.setAuth 0x80000001 [0x63, 0x37]
+    (st'.ent 0x80000001).map (fun e => (checkOne st' e 0x155 .user [] { sh := TPM_RS_PW, nonce := [], attrs := 0, hmac := [0x6b, 0x31] },
+                                        checkOne st' e 0x155 .user [] { sh := TPM_RS_PW, nonce := [], attrs := 0, hmac := [0x63, 0x37] }))
+      = some (.failAuth, .pass) := by decide
+
 end TpmVerif.Props.C04
